@@ -209,6 +209,9 @@ theorem inbound_subchannel_closed (fuel : Nat) (h : Store) (s : Inb) (RO : RelOp
     simp only [hin, if_false]
     dil_eval15 [tbl_Inbound, m_Inbound_subchannel_closed, envD, noRe, hd, hgetP]
 
+example : RelOpenSc [("_open_subchannels", .dict [(.int 4, encSc 4), (.int 6, encSc 6)])] { openSc := [6, 4] } :=
+  ⟨[4, 6], rfl, fun x => by simp [or_comm]⟩
+
 /-- non-vacuity: subchannels 4 and 6 open, 4 paused on connection 1; closing 4 deletes it and resumes the connection -/
 example : let h : Store := [("_open_subchannels", .dict [(.int 4, encSc 4), (.int 6, encSc 6)]),
       ("_paused_subchannels", .set [encSc 4]), ("_connection", .ref "Connection" 1)]
@@ -304,6 +307,31 @@ example : let h1 : Store :=
        ("_queued_unsent", .list [])]
     let o := PyIR.exec 8 (envD noRe) tbl_Outbound "resumeProducing" [] h1
     o.calls.map absPCall = [some (.resume 10), some (.resume 11), some (.resume 12)] ∧ o.exc = none := by decide +kernel
+
+/-- the hypotheses of `outbound_resumeProducing_producers` are met by a concrete paused configuration with three
+    registered producers, and the theorem then gives the model's three `resume` entries -/
+def demoPausedCfg : Cfg :=
+  { o := { paused := true, allp := [10, 11, 12], pausedSet := [11, 10, 12], unpausedSet := [],
+           scp := [(1, 10), (2, 11), (3, 12)], pulls := [12] } }
+
+def demoPausedHeap : Store :=
+  [("_paused", .bool true),
+   ("_all_producers", .list [encP WV.Props.PyIRC15.demoCls 10, encP WV.Props.PyIRC15.demoCls 11, encP WV.Props.PyIRC15.demoCls 12]),
+   ("_paused_producers", .set [encP WV.Props.PyIRC15.demoCls 12, encP WV.Props.PyIRC15.demoCls 10, encP WV.Props.PyIRC15.demoCls 11]),
+   ("_unpaused_producers", .set []),
+   ("_subchannel_producers", .dict [(encSc 1, encP WV.Props.PyIRC15.demoCls 10), (encSc 2, encP WV.Props.PyIRC15.demoCls 11),
+      (encSc 3, encP WV.Props.PyIRC15.demoCls 12)]),
+   ("_queued_unsent", .list [])]
+
+example : RelProd WV.Props.PyIRC15.demoCls demoPausedHeap demoPausedCfg.o := by
+  refine ⟨rfl, rfl, ⟨_, rfl, [12, 10, 11], rfl, fun x => ?_⟩, ⟨_, rfl, [], rfl, fun _ => Iff.rfl⟩, rfl⟩
+  simp [demoPausedCfg]; omega
+
+example : AgreeOut WV.Props.PyIRC15.demoCls (PyIR.exec 8 (envD noRe) tbl_Outbound "resumeProducing" [] demoPausedHeap)
+    demoPausedCfg (run (resumeProducing demoPausedCfg)) := by
+  refine outbound_resumeProducing_producers _ 8 _ _ rfl rfl rfl ?_ rfl (by decide)
+  refine ⟨rfl, rfl, ⟨_, rfl, [12, 10, 11], rfl, fun x => ?_⟩, ⟨_, rfl, [], rfl, fun _ => Iff.rfl⟩, rfl⟩
+  simp [demoPausedCfg]; omega
 
 open WV.Props.PyIRC15 in
 /-- the defect path the model keeps: an unpaused producer at the head of the rotation while another one is paused makes
